@@ -375,18 +375,16 @@ class Harness(object):
                     off = (set(head) - want_local) | (want_local - set(head))
                     findings.append(("dcaware-local-hosts-not-first", off, "first %d hosts %s, live local hosts %s" % (
                         len(want_local), head, sorted(want_local))))
-            seen_local = True
             per_dc = {}
-            for i, a in enumerate(plan):
+            for a in plan:
                 if a in want_local:
                     local_part.add(a)
                     continue
+                # (a host of the local datacenter that is not a live accepted local host lands here too;
+                #  it is reported by the not-live / excluded checks above)
                 remote_part.add(a)
                 if a in H:
                     per_dc.setdefault(self.eff_dc(H[a]), []).append(a)
-            if ldc in per_dc:
-                # a host of the local datacenter that is not a live local host sits in the plan (covered by ghosts/excluded)
-                pass
             live_by_dc = {}
             for a in live:
                 d = self.eff_dc(H[a])
@@ -660,7 +658,7 @@ def run(ctx):
                "slices before the filter); without a filter exactly min(used_hosts_per_remote_dc, live hosts of the DC)")
     rng = ctx.rng
     fixed_witnesses(ctx)
-    n = ctx.scale(8000, 600000)
+    n = ctx.scale(8000, 2400000)
     for i in range(n):
         r = rng.random()
         if r < 0.5:
@@ -672,7 +670,7 @@ def run(ctx):
         finish(ctx, hx)
         if i < 3:
             ctx.sample({"policy": describe(hx.stack), "flow": hx.flow, "events": hx.log[:12]})
-    ctx.floor_distinct = 3000 if ctx.quick else 150000
+    ctx.floor_distinct = 3000 if ctx.quick else 1000000
     ctx.floor_counters = {"sequences": 4000, "plans_judged": 60000, "distance_evaluations": 100000, "callbacks_delivered": 30000,
                           "location_updates": 3000, "local_dc_inferences": 300, "plans_with_remote_part": 3000,
                           "sequences_rr": 300, "sequences_dc": 1500, "sequences_wl": 300, "sequences_with_hf": 500,
